@@ -275,7 +275,7 @@ func (eng *Engine) encodeFunction(fn *ssa.Function, fc *FuncContract, extra []*C
 	for pass := 1; pass <= 4; pass++ {
 		fe = &FuncEnc{eng: eng, fn: fn, fc: fc, pre: &Prelude{declSet: map[string]bool{}}, sorts: newSorts(),
 			heapSorts: map[string]Sort{}, heapStable: map[string]bool{}, protected: map[string]types.Type{}, opCount: map[string]int{},
-			assumedCallees: map[string]bool{}, inlinedCallees: map[string]bool{}, usedContracts: map[string]bool{}, pass: pass, seqLen: map[string]string{}}
+			assumedCallees: map[string]bool{}, inlinedCallees: map[string]bool{}, usedContracts: map[string]bool{}, pass: pass, seqLen: map[string]string{}, linked: map[string]bool{}}
 		for k, v := range universe {
 			fe.heapSorts[k] = v
 		}
@@ -372,6 +372,9 @@ func (fe *FuncEnc) run(extra []*Clause) {
 				continue
 			}
 			fe.assume(f)
+			if strings.HasPrefix(r.Label, "config:") {
+				fe.assumedCallees["configuration invariant assumed by "+relName(fn)+": "+r.Src] = true
+			}
 		}
 		ensures = append(ensures, fe.fc.Ensures...)
 		sinks = append(sinks, fe.fc.Sinks...)
